@@ -34,7 +34,7 @@ SH = "odc.geo.cog._shared"
 # =====================================================================================================
 
 
-def _mk_pix(shape, layout, dtype, nbands, seed):
+def _mk_pix(shape, layout, dtype, nbands, seed, zero_region=False):
     import numpy as np
 
     h, w = shape
@@ -45,6 +45,8 @@ def _mk_pix(shape, layout, dtype, nbands, seed):
     else:
         ii = np.iinfo(dtype)
         base = rng.integers(ii.min, ii.max, size=(nbands, h, w), endpoint=True, dtype=dtype)
+    if zero_region:
+        base[:, : (2 * h) // 3, : (2 * w) // 3] = 0  # genuine zeros over whole blocks, in every band (valid data, not nodata)
     for b in range(nbands):
         base[b].flat[0] = b + 1  # bands are distinguishable even for 1x1 images
     if layout == "yx":
@@ -88,6 +90,7 @@ def _rio_samples():
             dest=fix.get("dest", rnd.choice(["mem", "file"])),
             existing=fix.get("existing", None),
             overwrite=fix.get("overwrite", False),
+            zero_region=fix.get("zero_region", False),
         )
         if min(d["shape"]) < 16 and d["overview_levels"]:
             d["overview_levels"] = []  # rasterio refuses several 1x1 overview levels: not a meaningful request
@@ -114,6 +117,11 @@ def _rio_samples():
             dict(shape=(16, 16), dtype="float64", nodata=float("nan"), layout="yxb", rotated=True),
             dict(shape=(520, 530), blocksize=100, windowed=True, overview_levels=[2, 4], dtype="uint16"),
             dict(shape=(513, 700), blocksize=256, overview_levels=None, dtype="float32", layout="byx", dest="file"),
+            # whole blocks of genuine zeros next to a non-zero nodata value, written window by window and in one go
+            dict(shape=(300, 300), blocksize=64, windowed=True, dtype="uint8", nodata=255, nodata_via="kwarg", layout="yx", zero_region=True, overview_levels=[2]),
+            dict(shape=(300, 300), blocksize=64, windowed=True, dtype="uint8", nodata=255, nodata_via="attrs", layout="yx", zero_region=True, overview_levels=[2]),
+            dict(shape=(300, 300), blocksize=64, windowed=True, dtype="int16", nodata=-9999, nodata_via="kwarg", layout="byx", nbands=2, zero_region=True, dest="mem"),
+            dict(shape=(300, 300), blocksize=64, windowed=False, dtype="uint8", nodata=255, layout="yx", zero_region=True),
         ]
         for f in fixed:
             yield dict(case=one(i, **f))
@@ -122,7 +130,7 @@ def _rio_samples():
             yield dict(case=one(i))
             i += 1
 
-    return "18 fixed + 50 (quick) / 260 (thorough) pseudo-random combinations of 6 shapes x 3 band layouts x 7 dtypes x nodata (none / value / nan, via attrs or keyword) x 3 CRSs x north-up/rotated x 6 block sizes x overview level lists x external overviews x windowed writes x intermediate compression x file/memory x pre-existing destination with/without overwrite", gen()
+    return "22 fixed (incl. whole blocks of genuine zeros beside a non-zero nodata) + 50 (quick) / 260 (thorough) pseudo-random combinations of 6 shapes x 3 band layouts x 7 dtypes x nodata (none / value / nan, via attrs or keyword) x 3 CRSs x north-up/rotated x 6 block sizes x overview level lists x external overviews x windowed writes x intermediate compression x file/memory x pre-existing destination with/without overwrite", gen()
 
 
 def _rio_oracle(args, run=None):
@@ -147,7 +155,7 @@ def _rio_oracle(args, run=None):
     if c["rotated"]:
         A = A * Affine.rotation(17.0)
     g = GeoBox((h, w), A, c["crs"])
-    pix = _mk_pix((h, w), c["layout"], c["dtype"], c["nbands"], c["idx"])
+    pix = _mk_pix((h, w), c["layout"], c["dtype"], c["nbands"], c["idx"], zero_region=c.get("zero_region", False))
     dims = {"yx": ("y", "x"), "byx": ("band", "y", "x"), "yxb": ("y", "x", "band")}[c["layout"]]
     nodata = c["nodata"]
     attrs_nodata = nodata if c["nodata_via"] == "attrs" else None
